@@ -607,7 +607,7 @@ def run(ctx):
 
 
 MANIFEST = dict(
-    text='Decides structural agreement of gdstk\'s OASIS reader and writer with the record rows of SEMI P39: for every reader arm and all 256 info bytes the ordered codec reads equal the standard\'s row (decision-tree simulation, robust to re-nesting); every writer block, under every valuation of its branch conditions, writes a field iff its info bit is set, in order and with the specified codec; position reads are one uniform absolute/relative block and CELL resets the modal state; the RECTANGLE square rule depends only on S and the absence of H; record numbering equals the standard; PLACEMENT angle codes agree on both sides; the END record holds the six table-offset pairs in order with offsets captured immediately before each table (0 when empty), padding to 256 bytes and the validation scheme byte; standard properties are written only under their config bit after removing the stale value, the bounding-box extents are differences of rounded corners and cell offsets are taken right before the CELL record. That every legal encoding decodes to the right geometry, and the numeric truth of offsets/boxes, are not decided.',
+    text='Decides structural agreement of gdstk\'s OASIS reader and writer with the record rows of SEMI P39: for every reader arm and all 256 info bytes the ordered codec reads equal the standard\'s row (decision-tree simulation, robust to re-nesting); every writer block, under every valuation of its branch conditions, writes a field iff its info bit is set, in order and with the specified codec; position reads are one uniform absolute/relative block and CELL resets the modal state; the RECTANGLE square rule depends only on S and the absence of H; record numbering equals the standard; PLACEMENT angle codes agree on both sides; the END record holds the six table-offset pairs in order with offsets captured immediately before each table (0 when empty), padding to 256 bytes and the validation scheme byte; standard properties are written only under their config bit after removing the stale value, the bounding-box extents are differences of rounded corners and cell offsets are taken right before the CELL record. That every legal encoding decodes to the right geometry, and the numeric truth of offsets/boxes, are not decided. The PLACEMENT angle table and the x/y position blocks of read_oas are decided by evaluating the statements that hold for each info byte / AA code (sa/minieval), whatever their form.',
     note='Trusted: clang front end, gx, sa/oasfields.py (decision-tree extraction and abstract writer interpretation; conditions it cannot classify raise analysis-broken), record rows transcribed from SEMI P39.',
-    technique='decision-tree extraction + exhaustive simulation over info bytes against the specification rows; abstract interpretation of writer blocks under predicate atoms; def-use/ordering rules for the END record and standard properties',
+    technique='decision-tree extraction + exhaustive simulation over info bytes against the specification rows; abstract interpretation of writer blocks under predicate atoms; def-use/ordering rules for the END record and standard properties + evaluation of the reader\'s position and angle statements per info byte (sa/minieval)',
     design='§4 C04')
